@@ -30,6 +30,7 @@ _r_define  = re.compile(r"^\s*#\s*define\s+([A-Za-z_][A-Za-z_0-9]*)"
                         r"\b((?:[^\n\\]|\\.)*?)$",
                         re.DOTALL | re.MULTILINE)
 _r_line_directive = re.compile(r"^[ \t]*#[ \t]*(?:line|\d+)\b.*$", re.MULTILINE)
+_r_other_whitespace = re.compile(r"[\r\f\v]")   # C whitespace unknown to pycparser
 _r_partial_enum = re.compile(r"=\s*\.\.\.\s*[,}]|\.\.\.\s*\}")
 _r_enum_dotdotdot = re.compile(r"__dotdotdot\d+__$")
 _r_partial_array = re.compile(r"\[\s*\.\.\.\s*\]")
@@ -190,6 +191,8 @@ def _put_back_line_directives(csource, line_directives):
     return _r_line_directive.sub(replace, csource)
 
 def _preprocess(csource):
+    # pycparser only knows about spaces, tabs and newlines
+    csource = _r_other_whitespace.sub(' ', csource)
     # First, remove the lines of the form '#line N "filename"' because
     # the "filename" part could confuse the rest
     csource, line_directives = _remove_line_directives(csource)
